@@ -6,8 +6,8 @@ import vlib
 sys.path.insert(0, os.path.join(vlib.VERIF, 'tools', 'translate'))
 from corr import certlib
 
-LEAN_TARGETS = ['CvxVerif.Props.C01', 'CvxVerif.Props.C01Check']
-MODEL_FILES = ['CvxVerif.Model.LinAlgMachine', 'CvxVerif.Model.CertCheck', 'CvxVerif.Proofs.CertCheck', 'CvxVerif.Gen.Decide']
+LEAN_TARGETS = ['CvxVerif.Props.C01', 'CvxVerif.Props.C01Check', 'CvxVerif.Props.C01Start']
+MODEL_FILES = ['CvxVerif.Model.LinAlgMachine', 'CvxVerif.Model.CertCheck', 'CvxVerif.Proofs.CertCheck', 'CvxVerif.Gen.Decide', 'CvxVerif.Gen.DecideStart']
 LEVEL = 'proof'
 TRUSTED = ['translator py2lean.gen_decide (statistics block, stopping test, return dictionaries, rescalings of conelp/coneqp) and the '
            'fixed semantics Model/LinAlgMachine.lean of its target statements',
@@ -19,9 +19,13 @@ ASSUMPTIONS = ['floating-point rounding between the solver statistics and the ex
 
 def translate(ctx):
     import py2lean
+    probs = []
     try: py2lean.gen_decide()
-    except Exception as e: return ['py2lean.gen_decide: %s: %s' % (type(e).__name__, e)]
-    return []
+    except Exception as e: probs.append('py2lean.gen_decide: %s: %s' % (type(e).__name__, e))
+    try:
+        import py2lean_start; py2lean_start.gen_decide_start()
+    except Exception as e: probs.append('py2lean_start.gen_decide_start: %s: %s' % (type(e).__name__, e))
+    return probs
 
 def correspond(ctx):
     cvxopt = vlib.use_build(ctx.build)
